@@ -376,11 +376,24 @@ Theorem C12_trapping_kernel_is_run : forall (dt cap len sub mult ldf ldp s : R) 
   Some ([map to_trappedMass (snd r); map to_outflowLoad (snd r)], [fst r]).
 Proof. exact trap_kernel_unfold. Qed.
 
-Theorem C12_trapall_kernel_is_run : forall (m0 x : R) (r b c d : list R),
-  @storage_trap_all_kernel R RArith [] [m0] [x :: r; b; c; d] =
-  let rr := run (@trapall_step R RArith) (Some m0) (x :: r) in
-  Some ([snd rr; zeros (snd rr)], [0]).
+Theorem C12_trapall_kernel_is_run : forall (m0 : R) (xs b c d : list R),
+  @storage_trap_all_kernel R RArith [] [m0] [xs; b; c; d] =
+  let rr := run (@trapall_step R RArith) (Some m0) xs in
+  Some ([snd rr; zeros (snd rr)], [@trapall_pack R RArith (fst rr)]).
 Proof. exact trapall_kernel_unfold. Qed.
+
+(** the state the kernel hands back is the stock of section 7's identity *)
+Theorem C12_trapall_packed_state_is_stock : forall s, @trapall_pack R RArith s = trapall_stock s.
+Proof. exact trapall_pack_is_stock. Qed.
+
+(** empty series (fix b73cc97): no output, stored mass carried unchanged; after a non-empty run nothing is left *)
+Theorem C12_trapall_kernel_empty_series : forall (m0 : R) (b c d : list R),
+  @storage_trap_all_kernel R RArith [] [m0] [[]; b; c; d] = Some ([[]; []], [m0]).
+Proof. exact trapall_kernel_empty. Qed.
+
+Theorem C12_trapall_kernel_nonempty_leaves_nothing : forall (m0 x : R) (r b c d : list R),
+  exists outs, @storage_trap_all_kernel R RArith [] [m0] [x :: r; b; c; d] = Some (outs, [0]).
+Proof. exact trapall_kernel_nonempty_state. Qed.
 
 Theorem C12_dissolved_kernel_nodecay_is_lumped : forall (dt flag ari bff mfrt s : R) (a b c d : list R),
   flag < 1 / 2 ->
@@ -392,11 +405,16 @@ Proof. exact dissolved_kernel_unfold. Qed.
 (** InstreamDissolvedNutrientDecay with decay disabled is the lumped routing with the annual
     point-source load as point input (kg/s): theorems of section 1 apply to it *)
 Theorem C12_dissolved_nutrient_nodecay_is_lumped : forall (flag psl lh lw ll uv dt s : R) (up lat vol q fpf : list R),
-  flag < 1 / 2 -> vol <> [] ->
+  flag < 1 / 2 ->
   @instream_dissolved_nutrient_decay_kernel R RArith [flag; psl; lh; lw; ll; uv; dt] [s] [up; lat; vol; q; fpf] =
   let r := run (@lumped_step R RArith (psl / 31557600) dt) s (lumped_rows up (Some lat) q vol) in
   Some ([zeros (snd r); map lo_outflowLoad (snd r); zeros (snd r); map lo_pointSourceLoad (snd r)], [fst r]).
 Proof. exact dn_kernel_nodecay_is_lumped. Qed.
+
+Theorem C12_dissolved_nutrient_kernel_empty_series : forall (flag psl lh lw ll uv dt s : R),
+  @instream_dissolved_nutrient_decay_kernel R RArith [flag; psl; lh; lw; ll; uv; dt] [s] [[]; []; []; []; []] =
+  Some ([[]; []; []; []], [s]).
+Proof. exact dn_kernel_empty. Qed.
 
 Theorem C12_dissolved_nutrient_nodecay_budget : forall (psl dt s : R) (up lat vol q : list R),
   let p := psl / 31557600 in
